@@ -69,6 +69,7 @@ class _EpydocLinker(DocstringLinker):
         
         self._init_obj = obj
         self._page_object: Optional['model.Documentable'] = obj.page_object
+        self._context_switched = False
     
     @property
     def obj(self) -> 'model.Documentable':
@@ -83,7 +84,12 @@ class _EpydocLinker(DocstringLinker):
         URL of the page used to compute the relative links from. 
         Can be an empty string to always generate full urls. 
         """
-        pageob = self._page_object
+        if not self._context_switched:
+            # The object might have been moved to another page (re-export)
+            # since this linker was created.
+            pageob: Optional['model.Documentable'] = self._init_obj.page_object
+        else:
+            pageob = self._page_object
         if pageob is not None:
             return pageob.url
         return ''
@@ -93,14 +99,17 @@ class _EpydocLinker(DocstringLinker):
         
         old_page_object = self._page_object
         old_reporting_object = self.reporting_obj
+        old_context_switched = self._context_switched
 
         self._page_object = None if ob is None else ob.page_object
         self.reporting_obj = ob
+        self._context_switched = True
         
         yield
         
         self._page_object = old_page_object
         self.reporting_obj = old_reporting_object
+        self._context_switched = old_context_switched
 
     def look_for_name(self,
             name: str,
